@@ -1143,3 +1143,88 @@ def _ev_cmp(f, t, mres, al, bl, pn):
 
 def enc3i(cfg):
     return enc3(cfg, mode='inverse')
+
+
+def enc6(cfg):
+    """ENC-6: capacity discipline of the growing buffers (key_encoder, key_buffer)"""
+    from .point import xsig as _x, _inits as _in
+    res = RuleResult('ENC-6', 'capacity discipline of the growing key buffers: ensure_available(req) grows exactly when off + req exceeds the capacity and asks for a capacity of off + req (not req); the member ensure_capacity hands (buf, cap, off, wanted) to the helper in this order; the helper allocates bit_ceil(wanted) >= wanted bytes, records that size as the new capacity and copies off bytes - so after ensure_available(req) the next req bytes at buf + off lie inside the allocation and the bytes already encoded are all there')
+    for f in cfg.functions:
+        if not f.blocks or f.short not in ('ensure_available', 'ensure_capacity'):
+            continue
+        if not (f.cls in (ENCODER, 'unodb::detail::key_buffer') or f.name.startswith('unodb::detail::ensure_capacity')):
+            continue
+        res.count('capacity functions')
+        res.functions.add(f.sig)
+        inits = _in(f)
+        problems = []
+        calls = [e for b, i, e in f.elements() if e.get('k') == 'call' and e.get('name') == 'ensure_capacity' and not is_assert_elem(e)]
+        if f.short == 'ensure_available':
+            conds = [_x(f, blk['cond']) for b, blk in f.blocks.items() if blk.get('cond') is not None and not is_assert_elem(f.resolve(blk['cond']) or {})]
+            conds = [re.sub(r'^__builtin_expect\((.*),[01]\)$', r'\1', c) for c in conds]
+            okc = any(c in ('((this.off + p0) > this.cap)', '((p0 + this.off) > this.cap)', '(this.cap < (this.off + p0))', '(this.cap < (p0 + this.off))', '((this.cap - this.off) < p0)', '(p0 > (this.cap - this.off))') for c in conds)
+            if not okc:
+                if conds and all(x in conds[0] for x in ('this.off', 'p0', 'this.cap')):
+                    res.incompl('ENC-6: growth test of %s has an unrecognised form: %s' % (sh(f.name)[:50], conds[0]))
+                    continue
+                problems.append('the growth test is %s, expected off + req > cap' % (conds[0] if conds else 'missing'))
+            args = [_x(f, c['args'][0], inits) for c in calls if c.get('args')]
+            if len(args) != 1 or args[0] not in ('(this.off + p0)', '(p0 + this.off)'):
+                if len(args) == 1 and 'this.off' in args[0] and 'p0' in args[0]:
+                    res.incompl('ENC-6: requested capacity of %s has an unrecognised form: %s' % (sh(f.name)[:50], args[0]))
+                    continue
+                problems.append('it asks for a capacity of %s, expected off + req: the buffer can end up smaller than the bytes already in it plus the request' % (args or ['nothing']))
+        elif f.cls:
+            args = [[_x(f, a, inits) for a in c.get('args', [])] for c in calls]
+            if args != [['this.buf', 'this.cap', 'this.off', 'p0']]:
+                problems.append('the helper is called with %s, expected (buf, cap, off, wanted)' % args)
+        else:
+            bc = [e for b, i, e in f.elements() if e.get('k') == 'call' and e.get('name') == 'bit_ceil']
+            al = [e for b, i, e in f.elements() if e.get('k') == 'call' and e.get('name') == 'allocate_aligned']
+            asg = {(_x(f, e['l'])): _x(f, e['r'], inits) for b, i, e in f.elements() if e.get('k') == 'binop' and e.get('op') == '='}
+            if not (len(bc) == 1 and _x(f, bc[0]['args'][0], inits) == 'p3'):
+                problems.append('the new size is not bit_ceil(wanted capacity)')
+            if not (len(al) == 1 and _x(f, al[0]['args'][0], inits) == 'bit_ceil(p3)'):
+                problems.append('the allocation is not sized bit_ceil(wanted capacity)')
+            if asg.get('p1') != 'bit_ceil(p3)':
+                problems.append('the recorded capacity (%s) is not the allocated size' % asg.get('p1'))
+        ok = not problems
+        res.ob(ok, {'rule': 'ENC-6', 'function': sh(f.sig)[:90], 'site': fileline(f.loc), 'verdict': 'discharged' if ok else 'VIOLATION'})
+        if not ok:
+            res.find(f, f.loc, '%s: %s - a later write of the requested bytes (or the copy of the bytes encoded so far) runs past the end of the allocation' % (sh(f.name)[:60], '; '.join(problems)), key='ENC-6:%s:%s' % (f.cls.split('::')[-1] if f.cls else 'detail', f.short), config=cfg.name)
+    res.floor('capacity functions', 5)
+    return res
+
+
+def enc7(cfg):
+    """ENC-7: what the buffers hand out and how they append"""
+    from .point import xsig as _x, _inits as _in
+    res = RuleResult('ENC-7', 'the growing key buffers hand out exactly the bytes written: get_key_view() is (buf, off), size_bytes() is off; every append of n bytes reserves n (ensure_available(n)) before it copies n bytes to buf + off from the data of its argument and advances off by the same n')
+    for f in cfg.functions:
+        if not f.blocks or f.cls not in (ENCODER, 'unodb::detail::key_buffer'):
+            continue
+        cname = f.cls.split('::')[-1]
+        inits = _in(f)
+        if f.short in ('get_key_view', 'size_bytes'):
+            res.count('buffer accessors')
+            res.functions.add(f.sig)
+            rets = [_x(f, e['e'], inits) for b, i, e in f.elements() if e.get('k') == 'return' and e.get('e') is not None]
+            want = 'span(this.buf,this.off)' if f.short == 'get_key_view' else 'this.off'
+            ok = rets == [want]
+            res.ob(ok, {'rule': 'ENC-7', 'function': '%s::%s' % (cname, f.short), 'returns': rets, 'verdict': 'discharged' if ok else 'VIOLATION'})
+            if not ok:
+                res.find(f, f.loc, '%s::%s returns %s, expected %s: the key handed to the index is not exactly the bytes encoded (bytes missing at the end, or stale bytes beyond the offset included)' % (cname, f.short, rets, want), key='ENC-7:%s:%s' % (cname, f.short), config=cfg.name)
+        elif f.short in ('append_bytes', 'push') and f.params and 'std::span<' in f.params[0].get('t', ''):
+            res.count('span appends')
+            res.functions.add(f.sig)
+            ens = [_x(f, e['args'][0], inits) for b, i, e in f.elements() if e.get('k') == 'call' and e.get('name') == 'ensure_available' and e.get('args')]
+            mc = [[_x(f, a, inits) for a in e['args']] for b, i, e in f.elements() if e.get('k') == 'call' and e.get('name') in ('memcpy', '__builtin_memcpy') and len(e.get('args', [])) == 3]
+            adv = [_x(f, e['r'], inits) for b, i, e in f.elements() if e.get('k') == 'binop' and e.get('op') == '+=' and _x(f, e['l']) == 'this.off']
+            n = ens[0] if ens else None
+            ok = len(ens) == 1 and n in ('p0.size_bytes()', 'p0.size()') and mc == [['(this.buf + this.off)', 'p0.data()', n]] and adv == [n]
+            res.ob(ok, {'rule': 'ENC-7', 'function': '%s::%s(span)' % (cname, f.short), 'reserve': ens, 'copy': mc, 'advance': adv, 'verdict': 'discharged' if ok else 'VIOLATION'})
+            if not ok:
+                res.find(f, f.loc, '%s::%s(span): reserve %s, copy %s, advance %s - expected ensure_available(n), memcpy(buf + off, data, n), off += n with n the size of the argument: bytes are written past the reservation, or the offset no longer matches what was written' % (cname, f.short, ens, mc, adv), key='ENC-7:%s:%s' % (cname, f.short), config=cfg.name)
+    res.floor('buffer accessors', 4)
+    res.floor('span appends', 2)
+    return res
